@@ -49,3 +49,7 @@ mod tests {
         assert_eq!(encode(Kind::SequenceMismatch), b'X');
     }
 }
+
+#[cfg(kani)]
+#[path = "/verif/harness/sam/writer_cigar_kind.rs"]
+mod verif_kani;
